@@ -61,35 +61,66 @@ def showRetrieve (r : RetrieveResult) : String :=
   let fut := if contains r.msg (env.msgOf .heightFromFuture) then 1 else 0
   s!"{r.code.name}/{r.nids}/{r.nblobs}/{fut}"
 
+/-- one submission: the observation line of `submit`; `wire?` overrides what the request carried (csubmit:
+taken from the two-caller model `Calls.run`) -/
+def submitLine (ans : SubAns) (max hArg : Nat) (cancelled : Bool) (sizes : List Nat)
+    (wire? : Option (Option (List Nat)) := none) : String :=
+  -- a fresh DummyDA stamps its ids with its own height `currentHeight + 1 = 1` (dummy.go:178)
+  let h := match ans with | .dummy => 1 | _ => hArg
+  let answer : List Nat → Except GoErr Nat := fun got =>
+    match ans with
+    | .ok none => .ok got.length
+    | .ok (some k) => .ok (min k got.length)
+    | .dummy => dummySubmit env id max got
+    | .fail e => .error e
+  -- the backing DA honours a cancelled context before anything else
+  let backingD : List Nat → Except GoErr Nat := fun got => if cancelled then .error env.ctxCanceled else answer got
+  let dr := backingD sizes
+  let d := submitHelper sizes.length h dr
+  let cs := clientSubmit env id max sizes cancelled answer
+  let p := submitHelper sizes.length h cs.1
+  let sent := match wire?.getD cs.2 with | none => "none" | some l => natList l
+  let wire := match cs.1, cs.2 with
+    | .error e, some l =>
+      if e.dynType = env.tyJSONRPCError then
+        match answer l with | .error e0 => toString (serverCode env.reg e0) | .ok _ => "-"
+      else "-"
+    | _, _ => "-"
+  s!"d={showSubmit d} p={showSubmit p} sent={sent} dis={showIs (errOf dr)} pis={showIs (errOf cs.1)} dty={showTy (errOf dr)} pty={showTy (errOf cs.1)} wire={wire}"
+
+def maxOf (o : Op) : Nat := if o.nat "max" = 0 then Gen.C16.defaultMaxBlobSize else o.nat "max"
+
 def submitOp (o : Op) : String :=
   match parseSubAns (o.str "ans") with
   | none => "bad-op"
-  | some ans =>
-    let max := if o.nat "max" = 0 then Gen.C16.defaultMaxBlobSize else o.nat "max"
-    -- a fresh DummyDA stamps its ids with its own height `currentHeight + 1 = 1` (dummy.go:178)
-    let h := match ans with | .dummy => 1 | _ => o.nat "h"
-    let cancelled := o.bool "cancel"
-    let sizes := o.nats "sizes"
-    let answer : List Nat → Except GoErr Nat := fun got =>
-      match ans with
-      | .ok none => .ok got.length
-      | .ok (some k) => .ok (min k got.length)
-      | .dummy => dummySubmit env id max got
-      | .fail e => .error e
-    -- the backing DA honours a cancelled context before anything else
-    let backingD : List Nat → Except GoErr Nat := fun got => if cancelled then .error env.ctxCanceled else answer got
-    let dr := backingD sizes
-    let d := submitHelper sizes.length h dr
-    let cs := clientSubmit env id max sizes cancelled answer
-    let p := submitHelper sizes.length h cs.1
-    let sent := match cs.2 with | none => "none" | some l => natList l
-    let wire := match cs.1, cs.2 with
-      | .error e, some l =>
-        if e.dynType = env.tyJSONRPCError then
-          match answer l with | .error e0 => toString (serverCode env.reg e0) | .ok _ => "-"
-        else "-"
-      | _, _ => "-"
-    s!"d={showSubmit d} p={showSubmit p} sent={sent} dis={showIs (errOf dr)} pis={showIs (errOf cs.1)} dty={showTy (errOf dr)} pty={showTy (errOf cs.1)} wire={wire}"
+  | some ans => submitLine ans (maxOf o) (o.nat "h") (o.bool "cancel") (o.nats "sizes")
+
+/-- two callers on one client: the phases of the two calls are interleaved as the gate forces them
+(`gate=free`: some order; the result does not depend on it, `Spec.C16.C16_concurrent_requests_own_batch`) -/
+def csubmitOp (o : Op) : String :=
+  match parseSubAns (o.str "ans"), o.get? "a", o.get? "b" with
+  | some ans, some _, some _ =>
+    let gate := o.str "gate"
+    if gate ≠ "stub" ∧ gate ≠ "da" ∧ gate ≠ "free" then "bad-op" else
+    let a := o.nats "a"
+    let b := o.nats "b"
+    let st := Calls.run id (maxOf o) a b (if gate = "da" then schedDA else schedStub)
+    s!"a[{submitLine ans (maxOf o) (o.nat "h") false a (some st.wireA)}] b[{submitLine ans (maxOf o) (o.nat "h") false b (some st.wireB)}]"
+  | _, _, _ => "bad-op"
+
+def bit (b : Bool) : String := if b then "1" else "0"
+
+/-- the caller gives up in the middle of a call (or not), the DA layer waits for inclusion -/
+def xsubmitOp (o : Op) : String :=
+  let how := o.str "cancel"
+  if (how ≠ "mid" ∧ how ≠ "none") ∨ (o.get? "sizes").isNone then "bad-op" else
+  let mid := how = "mid"
+  let sizes := o.nats "sizes"
+  let h := o.nat "h"
+  let d := directMidCall env sizes mid
+  let p := proxiedMidCall env id (maxOf o) sizes mid
+  let sent := match p.reached with | none => "none" | some l => natList l
+  s!"d={showSubmit (submitHelper sizes.length h d.result)} p={showSubmit (submitHelper sizes.length h p.result)} sent={sent} dsaw={bit d.sawCancel} psaw={bit p.sawCancel} dstored={natList d.stored} pstored={natList p.stored} dis={showIs (errOf d.result)} pis={showIs (errOf p.result)} dty={showTy (errOf d.result)} pty={showTy (errOf p.result)}"
 
 /-- the last error the helper saw while retrieving, direct or proxied -/
 def lastErr (ids : Except GoErr IdsReply) (get : Nat → Nat → Except GoErr Nat) : Option GoErr :=
@@ -134,6 +165,8 @@ def step (_ : Unit) (line : String) : Unit × String :=
     | "reset" => "ok"
     | "submit" => submitOp o
     | "retrieve" => retrieveOp o
+    | "csubmit" => csubmitOp o
+    | "xsubmit" => xsubmitOp o
     | _ => "bad-op"
   ((), out)
 
